@@ -36,6 +36,7 @@ class Profile:
         self.lenses = True
         self.var_targets = True
         self.last_error = False
+        self.maps = False          # stream maps / canon stream maps
         self.par_weight = 3
         self.xor_weight = 2
         self.fragment = False      # the C16 fragment: no streams, no canon, every fallible instruction under xor
@@ -56,7 +57,7 @@ class Gen:
 
     # scope: dict with scalars {name: kind}, streams [names], canons [names], iters [names]
     def empty_scope(self):
-        return {"scalars": {}, "streams": [], "canons": [], "iters": {}, "in_xor": False}
+        return {"scalars": {}, "streams": [], "canons": [], "iters": {}, "in_xor": False, "maps": [], "cmaps": []}
 
     def peer_lit(self):
         return '"@%s"' % self.r.choice(self.peers)
@@ -93,6 +94,9 @@ class Gen:
             if self.p.lenses:
                 opts.append(n + ".$.[0]")
                 w.append(1)
+        for n in sc.get("cmaps", []):
+            opts += [n, n + ".$.k1", n + ".$.k1.[0]", n + ".$.[7]", n + ".length"]
+            w += [2, 2, 1, 1, 1]
         if self.p.last_error:
             opts += ["%last_error%.$.error_code", "%last_error%.$.instruction"]
             w += [1, 1]
@@ -150,6 +154,8 @@ class Gen:
             opts.append(("fold_scalar", 2))
         if p.stream_folds and p.streams and not p.fragment and sc["streams"]:
             opts.append(("fold_stream", 2))
+        if p.maps and not p.fragment and sc.get("maps"):
+            opts.append(("fold_map", 2))
         if p.new and not p.fragment:
             opts.append(("new", 1))
         if p.match:
@@ -165,8 +171,8 @@ class Gen:
             # a branch must not depend on what its sibling defines (that is a data race between the
             # branches: whether the value is known depends on the schedule); both branches' definitions
             # are visible after the par
-            sa = dict(sc, scalars=dict(sc["scalars"]), streams=list(sc["streams"]), canons=list(sc["canons"]))
-            sb = dict(sc, scalars=dict(sc["scalars"]), streams=list(sc["streams"]), canons=list(sc["canons"]))
+            sa = dict(sc, scalars=dict(sc["scalars"]), streams=list(sc["streams"]), canons=list(sc["canons"]), maps=list(sc["maps"]), cmaps=list(sc["cmaps"]))
+            sb = dict(sc, scalars=dict(sc["scalars"]), streams=list(sc["streams"]), canons=list(sc["canons"]), maps=list(sc["maps"]), cmaps=list(sc["cmaps"]))
             a = self.instr(sa, d - 1)
             b = self.instr(sb, d - 1)
             if not getattr(p, "par_exports", True):
@@ -181,6 +187,12 @@ class Gen:
                     for n in src["canons"]:
                         if n not in sc["canons"]:
                             sc["canons"].append(n)
+                    for n in src["maps"]:
+                        if n not in sc["maps"]:
+                            sc["maps"].append(n)
+                    for n in src["cmaps"]:
+                        if n not in sc["cmaps"]:
+                            sc["cmaps"].append(n)
             return "(par %s %s)" % (a, b)
         if k == "xor":
             inner = dict(sc, scalars=dict(sc["scalars"]), streams=list(sc["streams"]), canons=list(sc["canons"]), in_xor=True)
@@ -243,7 +255,23 @@ class Gen:
             if r.random() < 0.3:
                 last = " (null)"
             return "(fold %s %s %s%s)" % (s, it, b, last)
+        if k == "fold_map":
+            m = r.choice(sc["maps"])
+            it = self.fresh("i")
+            inner = dict(sc, scalars=dict(sc["scalars"]), iters=dict(sc["iters"]), streams=list(sc["streams"]),
+                         canons=list(sc["canons"]), maps=[x for x in sc["maps"] if x != m], cmaps=list(sc["cmaps"]))
+            inner["iters"][it] = "any"
+            body = self.instr(inner, max(d - 2, 0))
+            b = "(seq %s (next %s))" % (body, it) if r.random() < 0.6 else "(par %s (next %s))" % (body, it)
+            return "(fold %s %s %s%s)" % (m, it, b, " (null)" if r.random() < 0.3 else "")
         if k == "new":
+            if p.maps and r.random() < 0.25:
+                m = r.choice(sc["maps"]) if sc["maps"] and r.random() < 0.5 else self.fresh("%m")
+                inner = dict(sc, scalars=dict(sc["scalars"]), streams=list(sc["streams"]), canons=list(sc["canons"]),
+                             maps=list(sc["maps"]), cmaps=list(sc["cmaps"]))
+                if m not in inner["maps"]:
+                    inner["maps"].append(m)
+                return "(new %s %s)" % (m, self.instr(inner, d - 1))
             if p.streams and r.random() < 0.6:
                 s = r.choice(sc["streams"]) if sc["streams"] and r.random() < 0.5 else self.fresh("$s")
                 inner = dict(sc, scalars=dict(sc["scalars"]), streams=list(sc["streams"]), canons=list(sc["canons"]))
@@ -298,11 +326,35 @@ class Gen:
             opts.append(("ap_stream", 2))
             if p.canon and sc["streams"]:
                 opts.append(("canon", 2))
+        if p.maps and not p.fragment:
+            opts.append(("ap_map", 3))
+            if sc.get("maps"):
+                opts.append(("canon_map", 2))
+                opts.append(("canon_map_scalar", 1))
         k = r.choices([o[0] for o in opts], [o[1] for o in opts])[0]
         if k == "call":
             return self.call(sc)
         if k == "null":
             return "(null)"
+        if k == "ap_map":
+            vals = ['"x"', "1"] + list(sc["scalars"].keys()) + list(sc["iters"].keys())
+            if sc["maps"] and r.random() < 0.75:
+                m = r.choice(sc["maps"])
+            else:
+                m = self.fresh("%m")
+                sc["maps"].append(m)
+            key = r.choice(['"k1"', '"k2"', "7", '"k1"'])
+            return "(ap (%s %s) %s)" % (key, r.choice(vals), m)
+        if k == "canon_map":
+            m = r.choice(sc["maps"])
+            c = "#%" + self.fresh("cm")
+            sc["cmaps"].append(c)
+            return "(canon %s %s %s)" % (self.peer_lit(), m, c)
+        if k == "canon_map_scalar":
+            m = r.choice(sc["maps"])
+            name = self.fresh("v")
+            sc["scalars"][name] = "obj"
+            return "(canon %s %s %s)" % (self.peer_lit(), m, name)
         if k == "ap_scalar":
             src = r.choice(list(sc["scalars"].keys()) + list(sc["iters"].keys()))
             name = self.fresh("v")
